@@ -7,3 +7,4 @@ import MicroHttp.Props.Tables
 #print axioms MicroHttp.C11.server_yields_nothing_on_error
 #print axioms MicroHttp.Tables.no_shared_state
 #print axioms MicroHttp.Tables.no_interior_mutability
+#print axioms MicroHttp.Tables.conn_new
